@@ -91,6 +91,10 @@ def _f02c(pid, cfg, tr, v):
     if v[0] != 'R':
         return False
     k = v[1]
+    if pid == 'C13':
+        from props.c13 import PROP as _P13
+        k = _P13.frame_index(tr, k)
+        v = ('R', k) + tuple(v[2:])
     if k < 1 or k > len(tr.frames):
         return False
     victims = set(e[2] for e in _events(tr, v, ('Preempt',))) | set(e[2] for e in _events(tr, v, ('Interrupt',)))
